@@ -10,7 +10,7 @@ Open Scope string_scope.
 Definition ex_subscript (g : string) (ds : list dty) : option dty := Some (DGen g ds).
 Definition ex_build (ts : list trace) : bres := BStub ("stub of " ++ dec (List.length ts) ++ " trace(s)").
 
-Definition fn (n : string) : obj := Obj (KFunc n) "<class 'function'>" None.
+Definition fn (m q : string) : obj := Obj (KFunc (FRef m (Some q))) "<class 'function'>" None.
 Definition cl (n : string) : obj := Obj (KClass n) "<class 'type'>" None.
 
 Definition exw : world :=
@@ -20,12 +20,14 @@ Definition exw : world :=
        if existsb (String.eqb "<locals>") path then AttrMissing else
        let p := join_dot path in
        if m =? "fx" then
-         if p =? "f" then AttrOk (fn "fx.f")
-         else if p =? "g" then AttrOk (Obj (KFunc "fx.g_wrapper") "<class 'function'>" (Some (fn "fx.g")))
-         else if p =? "h" then AttrOk (fn "fx.h")
+         if p =? "f" then AttrOk (fn "fx" "f")
+         else if p =? "g" then AttrOk (Obj (KFunc (FRef "fx" (Some "g"))) "<class 'function'>" (Some (fn "fx" "g")))
+         else if p =? "alias" then AttrOk (fn "fx" "f")
+         else if p =? "handler" then AttrOk (fn "fx" "factory.<locals>.inner")
+         else if p =? "h" then AttrOk (fn "fx" "h")
          else if p =? "K" then AttrOk (cl "fx.K")
-         else if p =? "K.m" then AttrOk (fn "fx.K.m")
-         else if p =? "K.ps" then AttrOk (Obj (KProperty (Some "fx.K.ps") true) "<class 'property'>" None)
+         else if p =? "K.m" then AttrOk (fn "fx" "K.m")
+         else if p =? "K.ps" then AttrOk (Obj (KProperty (Some (FRef "fx" (Some "K.ps"))) true) "<class 'property'>" None)
          else if p =? "K.pn" then AttrOk (Obj (KProperty None false) "<class 'property'>" None)
          else if p =? "n" then AttrOk (Obj KOther "<class 'int'>" None)
          else AttrMissing
@@ -54,6 +56,7 @@ Definition s_of (k : stale_kind) : row :=
   | SNowClass => Row "fx" "K" [] None None
   | SSettableProperty => Row "fx" "K.ps" [] None None
   | SNoGetterProperty => Row "fx" "K.pn" [] None None
+  | SOtherFunction => Row "fx" "handler" [("a", e_int)] (Some e_int) None
   | SArgClassRemoved => Row "fx" "f" [("a", e_int); ("b", e_list (ETy "fx" "Gone" false []))] None None
   | SReturnClassRemoved => Row "fx" "f" [("a", e_int)] (Some (ETy "gone" "G" false [])) None
   | SYieldClassRemoved => Row "fx" "f" [] (Some e_int) (Some (ETd "m" "TD" [("j", e_int); ("k", ETy "fx" "Gone" false [])]))
@@ -62,12 +65,12 @@ Definition s_of (k : stale_kind) : row :=
 
 Definition all_kinds : list stale_kind :=
   [SModuleRemoved; SSubmoduleRemoved; SFuncRemoved; SLocalScope; SNonFunction; SNowClass; SSettableProperty;
-   SNoGetterProperty; SArgClassRemoved; SReturnClassRemoved; SYieldClassRemoved; SClassNonType].
+   SNoGetterProperty; SOtherFunction; SArgClassRemoved; SReturnClassRemoved; SYieldClassRemoved; SClassNonType].
 
 Definition ex_rows : list row :=
   [s_of SModuleRemoved; v1; s_of SSubmoduleRemoved; s_of SFuncRemoved; s_of SLocalScope; v2; s_of SNonFunction;
    s_of SNowClass; s_of SSettableProperty; s_of SNoGetterProperty; s_of SArgClassRemoved;
-   s_of SReturnClassRemoved; s_of SYieldClassRemoved; v3; s_of SClassNonType].
+   s_of SReturnClassRemoved; s_of SYieldClassRemoved; v3; s_of SClassNonType; s_of SOtherFunction].
 
 Definition ex_args (verbose : bool) : args := Args CStub "fx" None verbose false false "fx".
 
@@ -99,6 +102,8 @@ Proof.
   - eexists; eexists; eexists; eexists. split; [reflexivity|]. split; [reflexivity|eexists; reflexivity].
   - eexists; eexists; eexists; eexists. split; [reflexivity|]. split; [reflexivity|eexists; reflexivity].
   - eexists; eexists; eexists; eexists. split; [reflexivity|]. split; [reflexivity|eexists; reflexivity].
+  - eexists; eexists; eexists; eexists. split; [reflexivity|]. split; [reflexivity|].
+    eexists; eexists. split; [reflexivity|]. split; [reflexivity|discriminate].
   - split; [eexists; reflexivity|]. eexists. split.
     + exists [("a", e_int)], "b", []. split; [reflexivity|eexists; reflexivity].
     + apply (st_child ex_subscript exw RefGone "typing" "List" "typing.List" "<class 'typing._SpecialGenericAlias'>" None
@@ -137,12 +142,12 @@ Qed.
 
 Theorem ex_run_ok :
   run ex_subscript ex_build (fun s => AOk s) (ex_args false) exw ex_rows
-    = Exit ["stub of 3 trace(s)"] ["12 traces failed to decode; use -v for details"] 0
+    = Exit ["stub of 3 trace(s)"] ["13 traces failed to decode; use -v for details"] 0
   /\ (exists l, run ex_subscript ex_build (fun s => AOk s) (ex_args true) exw ex_rows
-                = Exit ["stub of 3 trace(s)"] l 0 /\ List.length l = 12
+                = Exit ["stub of 3 trace(s)"] l 0 /\ List.length l = 13
                   /\ nth 2 l "" = "WARNING: Failed decoding trace: Module 'fx' has no attribute 'K.gone'")
   /\ run ex_subscript ex_build (fun s => AOk s) (ex_args false) exw (filter (fun r => negb (decodable ex_subscript exw r)) ex_rows)
-     = Exit [] ["12 traces failed to decode; use -v for details"; "No traces found for module fx"] 0.
+     = Exit [] ["13 traces failed to decode; use -v for details"; "No traces found for module fx"] 0.
 Proof.
   split; [vm_compute; reflexivity|]. split; [|vm_compute; reflexivity].
   eexists. split; [vm_compute; reflexivity|]. split; vm_compute; reflexivity.
